@@ -179,7 +179,7 @@ def main(argv):
         if a in ("quick", "thorough"):
             tier = a
         elif a == "--replay":
-            replay = args.pop(0)
+            replay = os.path.abspath(args.pop(0))
         elif a == "--shard":
             shard = tuple(int(x) for x in args.pop(0).split("/"))
         elif a == "--out":
